@@ -152,6 +152,7 @@ def run(ctx):
     if not ctx.thorough:
         stmts = [s for i, s in enumerate(stmts) if i % 4 == ctx.seed % 4]
     g = gens.G(rnd, null_rate=0.02, max_depth=2)
+    g.paren_query = True
     gen = [g.statement() for _ in range(ctx.n(400, 6000))]
     stmts += [("common_parser", x) for x in gen if len(x) < 260][:ctx.n(110, 2500)]
     for entry, sql in stmts:
